@@ -128,7 +128,7 @@ class C08(EngineProp):
     technique = 'Lean 4 proof (per-stream wire monitor as an invariant of the engine model) + event-level differential correspondence'
     level_text = ('PARTIAL. Kernel-checked for every reachable state of the engine model and every event: c08_opens_with_request_own_parity (fresh non-zero id of own parity, the only frame queued is the request), '
                   'c08_positive_initial_request_n, c08_connection_frames_on_stream_zero (both over all runs, via the invariant Inv08 carried by Ext), c08_types_per_role_api, c08_types_on_receive, c08_no_frames_on_loss, '
-                  'c08_unregistered_stream_silent_partial, c08_own_terminal_unregisters and c08_nothing_after_own_terminal_from_peer (request-response / request-stream, both roles: queueing the own terminal frame unregisters the stream and nothing the peer sends afterwards makes the endpoint emit on it again), c08_request_frame_precedes_on_subscribe (every requester entry point that hands out the subscription has queued the request frame immediately before: the ordering defect F18 repaired). The clause "after its own ERROR / requester CANCEL it emits nothing further on that stream" is FALSE of the code for request-channel '
+                  'c08_unregistered_stream_silent_partial, c08_own_terminal_unregisters and c08_nothing_after_own_terminal_from_peer (request-response / request-stream, both roles: queueing the own terminal frame unregisters the stream and nothing the peer sends afterwards makes the endpoint emit on it again), c08_request_frame_precedes_on_subscribe (every requester entry point that hands out the subscription has queued the request frame immediately before: the ordering defect F18 repaired). On the model of the stream sources (Credit.lean, compared with each real source behind a real responder): c08_source_nothing_after_terminal (every source, every interleaving of credit / producer / feeder / cancel events: once a terminal signal has been handed over, no element and no second terminal follows - no ERROR after an element flagged complete), c08_source_stops_at_flagged_element. The clause "after its own ERROR / requester CANCEL it emits nothing further on that stream" is FALSE of the code for request-channel '
                   '(c08_half_close_counterexample is the model witness; the check replays it on the implementation: known finding F16) and for lease-held requests (F10, client scenario, not in the engine model); '
                   'for those the evidence is the wire monitor over generated histories only. SETUP first and once is C16 (c16_*), lease gating C14.')
     level_note = 'Trusted: as C07. SETUP-first is checked by C16; lease-gated requests by C14.'
@@ -441,12 +441,32 @@ class C08(EngineProp):
             pass
         return {'steps': [['LEASE-SCENARIO', toks]], 'final': {'table': [], 'cache': []}, 'script': [], 'extra': None, 'kinds': [], 'sids': []}
 
+    def _source_line(self, case):
+        flagged = case['flagged'] and case['src'] in ('gen', 'agen')
+        ev = ['r%d' % case['n0'], 'q'] + (['r%d' % case['more'], 'q'] if case['more'] else [])
+        return 'credit flagged=%d failing=%d count=%d %s' % (flagged, case['failing'], case['count'], ' '.join(ev))
+
     def model_lines(self, case, obs):
+        if case.get('kind') == 'source':
+            return [self._source_line(case)]
         if case.get('kind') in ('lease', 'setup-order', 'reconnect', 'collector', 'source'):
             return []
         return super().model_lines(case, obs)
 
     def compare(self, case, obs, answers):
+        if case.get('kind') == 'source':
+            n, term, impl = 0, '-', []
+            for marker, outs in obs['steps']:
+                for t in outs:
+                    p = t.split(':')
+                    if p[0] == 'S' and p[1] == 'PAYLOAD':
+                        n += 1 if p[3][2] == '1' else 0
+                        term = 'c' if p[3][1] == '1' else term
+                    elif p[0] == 'S' and p[1] == 'ERROR':
+                        term = 'e'
+                impl.append('%d%s' % (n, term))
+            model = answers[0].split(' ')
+            return None if impl == model else 'elements and terminal signal on the wire after each grant: impl %s / model %s (%s)' % (impl, model, self._source_line(case))
         if case.get('kind') in ('lease', 'setup-order', 'reconnect', 'collector', 'source'):
             return None
         return super().compare(case, obs, answers)
